@@ -14,6 +14,15 @@ NamesHostile == {<<"a">>, <<"b", "a">>, <<"..">>, <<"r", "..">>, <<"r", "..", "a
 NamesMid == NamesCore \cup NamesHostile
 NamesSim == NamesCore \cup {<<"r", "b", "b">>, <<"r", "a", "..">>, <<"a">>, <<"r", "", "a">>}
 
+\* replacement chains: an entry REPLACES an earlier entry of the same name by another type and later entries go
+\* BELOW that name (dir -> symlink -> child, dir -> file -> child, symlink -> dir -> child ...).  Below the
+\* archive root this needs >= 4 entries (root dir, x, x again, x/child), so the alphabet is one chain of names
+\* (every prefix of r/a/a[/a]) and the archives are longer.
+NamesChain == {<<"r">>, <<"r", "a">>, <<"r", "a", "a">>}
+NamesChain4 == NamesChain \cup {<<"r", "a", "a", "a">>, <<"r", "b">>}
+MetaOne == {<<M700, "t1">>}
+TargetsTwo == {"abs_o", "up2_o"}
+
 MetaAll == {<<0, "z">>, <<M700, "z">>, <<0, "t1">>, <<M700, "t1">>}
 MetaTwo == {<<0, "z">>, <<M700, "t1">>}
 TargetsAll == {"abs_o", "up2_o", "rel_a", "abs_of"}
